@@ -5,16 +5,20 @@ CHECKS = {
  'C12': ("Decides the ordering structure of the sync discipline on every CFG path (including error exits): completed `?`-checked sync before every ok-return of the blob constructor, before every index dump/construction, between retiring the active blob and publishing it, on the explicit fsyncdata path; dirty-byte trigger after every append and its route to a sync; synced-size bookkeeping only after an ok sync with a pre-captured size; written-flag after body and before sync. Not decided: the numeric bound on un-synced bytes under concurrent writes.",
          "must-pass-through (dominance) with inter-procedural must-on-ok summaries over rustc MIR", "DESIGN.md 6/C12"),
 }
+CHECKS.update({
+ 'C08': ("Decides structural necessary conditions of deadlock-freedom and non-interleaved appends: (D1) the wait-for graph over lock classes (lock crate x protected type, modes from guard types), the bounded observer channel and task joins - built from a forward held-guard dataflow at every call site and inter-procedural may-wait summaries - has no cycle whose modes conflict (fair/write-preferring RwLocks make R/R conflict when a writer exists); (D2) every record append happens under exclusive access (&mut Blob or a live upgradable/write guard) that is still held at the index push; (D3) no std::sync guard is live at a yield; (D4) offsets come only from the atomic reservation. Not decided: linearizability / freshness of observed values, lost updates as values.",
+         "held-guard dataflow + wait-for graph cycle detection + typestate of exclusive access over rustc MIR", "DESIGN.md 6/C08"),
+ 'C13': ("Decides the liveness preconditions of background maintenance: the worker's message loop is left only through the Stop arm that is constructed only on recv()==None, no panic written in the worker module is reachable in the loop; one channel whose Sender is never cloned and is dropped before the worker handle is awaited; no guard live where close() joins the worker; after every ok write the size/count condition is evaluated and its true edge sends the rotation request whose handler reaches blob replacement; no armed wait-for cycle involves the worker. Not decided: bounded-time completion of requested dumps.",
+         "natural-loop exit analysis, dominance, held-guard dataflow and wait-for graph over rustc MIR", "DESIGN.md 6/C13"),
+})
 NOT_APPLICABLE = {
  'C02': "not claimed in this commit: rules under construction (see DESIGN.md section 6 for the planned structural clauses)",
  'C03': "not claimed in this commit: rules under construction (see DESIGN.md section 6 for the planned structural clauses)",
  'C04': "not claimed in this commit: rules under construction (see DESIGN.md section 6 for the planned structural clauses)",
  'C05': "not claimed in this commit: rules under construction (see DESIGN.md section 6 for the planned structural clauses)",
  'C06': "not claimed in this commit: rules under construction (see DESIGN.md section 6 for the planned structural clauses)",
- 'C08': "not claimed in this commit: rules under construction (see DESIGN.md section 6 for the planned structural clauses)",
  'C10': "not claimed in this commit: rules under construction (see DESIGN.md section 6 for the planned structural clauses)",
  'C11': "not claimed in this commit: rules under construction (see DESIGN.md section 6 for the planned structural clauses)",
- 'C13': "not claimed in this commit: rules under construction (see DESIGN.md section 6 for the planned structural clauses)",
  'C14': "not claimed in this commit: rules under construction (see DESIGN.md section 6 for the planned structural clauses)",
  'C15': "not claimed in this commit: rules under construction (see DESIGN.md section 6 for the planned structural clauses)",
  'C16': "not claimed in this commit: rules under construction (see DESIGN.md section 6 for the planned structural clauses)",
